@@ -473,6 +473,10 @@ pub fn run(r: &mut Runner, level: &str, profile: &str, seed: u64, count: u64, ti
                             }
                         }
                     }
+                    // C18 fault kinds beyond half-close, on the real server only
+                    if level == "conn" && p.name == "C18" {
+                        fault_kinds(r, &mut rng, &frames, limit, &stream, &mut st);
+                    }
                     reference = Some((canonical, dump))
                 }
                 Some((c0, d0)) => {
@@ -494,6 +498,89 @@ pub fn run(r: &mut Runner, level: &str, profile: &str, seed: u64, count: u64, ti
     }
     r.finish();
     st
+}
+
+/// C18: the fault kinds a half-close does not cover.
+///  * silence: the stream (whose tail may be a truncated request) is sent and the client just stops — the complete
+///    requests are answered, the connection stays open, a second connection (`obs`) is served and sees exactly the
+///    store the complete requests imply (all compared with the model);
+///  * abortive reset / close without reading: everything is sent at once and the connection is aborted; afterwards
+///    the store must be the store after some *prefix* of the complete requests (each at most once, in order) — the
+///    prefixes are computed by the implementation itself, one run per prefix (those runs are compared with the model);
+///    the server must still serve (`obs`).
+fn fault_kinds(r: &mut Runner, rng: &mut Rng, frames: &[SFrame], limit: u32, stream: &[u8], st: &mut StreamStats) {
+    let has_quit = frames.iter().any(|f| matches!(f.kind, Kind::Quit | Kind::QuitQ));
+    let probe_key = b"probe-key".to_vec();
+    let probe: Vec<u8> = {
+        let mut v = wire::set_like(op::SET, &probe_key, b"pv", 7, 0, 0, 0x0b5).bytes();
+        v.extend(wire::key_only(op::GET, &probe_key, 0, 0x0b6).bytes());
+        v.extend(wire::key_only(op::DELETE, &probe_key, 0, 0x0b7).bytes());
+        v
+    };
+    // silence
+    {
+        st.cases += 1;
+        *st.kinds.entry("fault:silence".into()).or_insert(0) += 1;
+        r.exec(&format!("new {}", limit));
+        r.exec("conn");
+        r.exec(&format!("chunk {}", hex(stream)));
+        r.exec("fin");
+        r.exec(&format!("obs {}", hex(&probe)));
+        r.exec("dump");
+        r.exec("eof");
+        r.exec("dump");
+    }
+    if has_quit {
+        return;
+    }
+    // the complete, valid-or-answerable frames in order (a bad header ends the connection: nothing after it runs)
+    let mut complete: Vec<&SFrame> = vec![];
+    for f in frames {
+        if matches!(f.kind, Kind::Truncated | Kind::BadHeader) {
+            break;
+        }
+        complete.push(f);
+    }
+    if complete.len() < 2 || !rng.chance(1, 2) {
+        return;
+    }
+    // store after each prefix, by the implementation itself
+    let mut prefix_dumps: Vec<String> = vec![];
+    for k in 0..=complete.len() {
+        let upto: Vec<u8> = complete[..k].iter().flat_map(|f| f.bytes.clone()).collect();
+        r.exec(&format!("new {}", limit));
+        r.exec("conn");
+        if !upto.is_empty() {
+            r.exec(&format!("chunk {}", hex(&upto)));
+        }
+        r.exec("eof");
+        prefix_dumps.push(r.exec("dump"));
+    }
+    for kind in ["rst", "close"] {
+        st.cases += 1;
+        *st.kinds.entry(format!("fault:{}", kind)).or_insert(0) += 1;
+        let start = r.ops.len();
+        r.exec(&format!("new {}", limit));
+        r.exec(&format!("blast {} {}", kind, hex(stream)));
+        let d = r.sut.dump();
+        let which = prefix_dumps.iter().position(|p| *p == d);
+        let prog = r.prog_start.len() - 1;
+        match which {
+            Some(k) => {
+                *st.kinds.entry(format!("fault:{}:executed-{}", kind, if k == complete.len() { "all" } else if k == 0 { "none" } else { "some" })).or_insert(0) += 1;
+            }
+            None => {
+                r.violations.push((prog, vec!["C18"], start, format!("after an abortive end ({}) of a connection that had sent {} complete requests the store [{}] is not the store after any prefix of them (each at most once, in order); stream: {}", kind, complete.len(), trunc(&d), hex(stream))));
+            }
+        }
+        // the server keeps serving: a new connection is answered (compared with the model on a store the model does
+        // not know, so the probe uses its own key and leaves nothing behind)
+        let o = r.sut.obs(&probe);
+        let expect_tail = "0b7"; // the delete's opaque appears in the last response
+        if !o.contains(expect_tail) {
+            r.violations.push((prog, vec!["C18", "C17"], start, format!("after an abortive end ({}) a new connection is not served properly: {}", kind, trunc(&o))));
+        }
+    }
 }
 
 /// C11 on the real write path: a response far larger than a socket buffer must arrive complete, and the
